@@ -16,6 +16,7 @@ GROUPS = [
     dict(name='wait_in_mpmc', tu='manager.c', harness='h_wait_mpmc', mode='H', defs=LF, functions=['fiber_manager_wait_in_mpmc_queue'], unwind=2, exact_unwind=True),
     dict(name='wake_from_mpmc', tu='manager.c', harness='h_wake_mpmc', mode='H', defs=LF, functions=['fiber_manager_wake_from_mpmc_queue'], unwind=6, bounded=True, bound='count <= 2, at most 2 empty pops'),
     dict(name='set_and_wait', tu='manager.c', harness='h_set_and_wait', mode='H', defs=LF, functions=['fiber_manager_set_and_wait'], unwind=2, exact_unwind=True),
+    dict(name='lemmas', tu='lemmas.c', kind='lemmas', harness='', no_native='pure lemma'),
     dict(name='clear_or_wait', tu='manager.c', harness='h_clear_or_wait', mode='H', loop_contracts=True, defs=LF, functions=['fiber_manager_clear_or_wait'], unwind=2, exact_unwind=True),
 ]
 TRUSTED = ['fiber_context_swap: by contract (C19: saves the caller\'s callee-saved state and stack pointer, resumes the target); the stub havocs the resumed manager\'s old fiber and deferred slots',
